@@ -97,4 +97,57 @@ theorem legacy_bc_case_sensitive_counterexample :
     deconv1dRefusal ⟨6, true, "Periodic", none, .str "gauss", false, .str "sinc", false, "gaussian"⟩ = some "ValueError" := by
   constructor <;> decide +kernel
 
+/-- **deconv2d_constructed_iff.**  `Deconvolution2D(…)` raises nothing in its option handling exactly
+    when: `BC` is one of `neumann/zero/nearest/mirror/periodic` in any letter case; the PSF is a square
+    2-D array or one of `gauss/moffat/defocus` (any case; not `defocus` with `PSF_param = 0` — known
+    finding); the phantom is an image (`ndim ≤ 2`, any size), a vector whose length is a perfect square,
+    or a name found in the `cuqi.data` library; the noise type is `gaussian`/`scaledgaussian` in any case.
+    Every option record. -/
+theorem deconv2d_constructed_iff (o : D2Opts) :
+    deconv2dRefusal o = none ↔
+      (bc2d o.bc.toLower).isSome ∧
+      (match o.psf with
+       | .square => True
+       | .nonsquare => False
+       | .str s => (psfName s.toLower).isSome ∧ ¬ (psfName s.toLower = some .defocus ∧ o.psfParamZero = true)
+       | .other => False) ∧
+      (match o.phantom with
+       | .image nd => nd ≤ 2
+       | .vector len => isSquareNat len = true
+       | .str _ inLib => inLib = true
+       | .other => False) ∧
+      (noiseType o.noise.toLower).isSome := by
+  unfold deconv2dRefusal
+  cases hb : bc2d o.bc.toLower with
+  | none => simp
+  | some m =>
+    simp only [Option.isNone_some, Bool.false_eq_true, if_false, Option.isSome_some, true_and]
+    cases hn : noiseType o.noise.toLower with
+    | none =>
+      cases hp : o.psf with
+      | square => cases hph : o.phantom <;> simp <;> split_ifs <;> simp_all
+      | nonsquare => cases hph : o.phantom <;> simp <;> split_ifs <;> simp_all
+      | other => simp
+      | str s =>
+        cases hs : psfName s.toLower with
+        | none => cases hph : o.phantom <;> simp <;> split_ifs <;> simp_all
+        | some nm => cases nm <;> cases hz : o.psfParamZero <;> cases hph : o.phantom <;> simp <;> split_ifs <;> simp_all
+    | some b =>
+      cases hp : o.psf with
+      | square => cases hph : o.phantom <;> simp <;> split_ifs <;> simp_all <;> omega
+      | nonsquare => cases hph : o.phantom <;> simp <;> split_ifs <;> simp_all
+      | other => simp
+      | str s =>
+        cases hs : psfName s.toLower with
+        | none => cases hph : o.phantom <;> simp <;> split_ifs <;> simp_all
+        | some nm => cases nm <;> cases hz : o.psfParamZero <;> cases hph : o.phantom <;> simp <;> split_ifs <;> simp_all <;> omega
+
+example : deconv2dRefusal ⟨"Neumann", .str "Moffat", false, .vector 9, "scaledGaussian"⟩ = none := by decide +kernel
+
+/-- **Witness (observation).**  The boundary-condition vocabularies of the two deconvolution problems
+    differ: `'reflect'` is a documented 1-D name refused by `Deconvolution2D`, `'neumann'` the other way round. -/
+theorem bc_vocabularies_differ_counterexample :
+    bc1d "reflect" ≠ none ∧ bc2d "reflect" = none ∧ bc2d "neumann" ≠ none ∧ bc1d "neumann" = none := by
+  refine ⟨?_, ?_, ?_, ?_⟩ <;> decide +kernel
+
 end CuqiVerif.C17
